@@ -9,6 +9,7 @@ real `re.fullmatch`, byte-identity and order of every member under a non-text ke
 """
 import json
 import os
+import time
 import re
 import shutil
 import subprocess
@@ -338,6 +339,7 @@ def _stale(*paths):
     for p in paths:
         with open(p, "wb") as fh:
             fh.write(STALE)
+        os.utime(p, (time.time() + 3600, time.time() + 3600))      # ... and NEWER than every input: file times are not an input
 
 
 def _written(path):
